@@ -463,6 +463,61 @@ def run(ctx: Context, rep) -> None:
                        "on reopen")
     from sa.rules import shared
     shared.check_expanduser_guarded(ctx, rep, "C20.expanduser")
+    # ---------------------------------------------------------------------
+    # what create() persists is the description it was given
+    rep.rule(
+        "C20.create",
+        "Dataset.create assigns the given metadata and dataset_structure to "
+        "the new handle before its first write_config on every path (the "
+        "first persisted description is the one the caller passed, not a "
+        "default one)")
+    cr_ = ctx.fn("sedpack.io.dataset:Dataset.create")
+    ccfg_ = ctx.cfg(cr_)
+    nf__ = lambda a, b, lab: lab not in ("exc", "raise")  # noqa: E731
+    wr_ = [n for n in ccfg_.calls() if ctx.is_call(cr_, n.ast,
+                                                   method="write_config")]
+    for par in ("metadata", "dataset_structure"):
+        sets = [n for n in ccfg_.nodes if n.kind == "stmt" and isinstance(
+            n.ast, ast.Assign) and any(
+                isinstance(t, ast.Attribute) and t.attr == par
+                for t in n.ast.targets) and dotted(n.ast.value) == par]
+        before = ccfg_.reachable([ccfg_.entry], avoiding=sets, follow=nf__)
+        early = [w for w in wr_ if w in before]
+        rep.ob("C20.create", bool(sets) and bool(wr_) and not early,
+               loc=cr_.loc(early[0].ast) if early else cr_.loc(),
+               where=cr_.qualname,
+               construct=f"<handle>.{par} = {par} -> write_config",
+               message=f"the caller's {par} is set before the description is "
+               "first written")
+    # ---------------------------------------------------------------------
+    # loading does not rewrite what was recorded
+    rep.rule(
+        "C20.validators",
+        "every pydantic field / model validator of a persisted model returns "
+        "the value it was given on every normal path (it may only raise): "
+        "loading a description must not replace recorded values (a "
+        "validator that overwrites sedpack_version defeats the version gate)")
+    n_val = 0
+    for ci in model_classes(ctx).values():
+        for m in ci.methods.values():
+            decos = [d for d in m.decorators if d.rsplit(".", 1)[-1].split(
+                "(")[0] in ("field_validator", "model_validator", "validator")]
+            if not decos:
+                continue
+            n_val += 1
+            params = [p for p in m.params() if p not in ("cls", "self")]
+            given = params[0] if params else ("self" if "self" in m.params()
+                                              else None)
+            rets = [r for r in m.body_nodes() if isinstance(r, ast.Return)]
+            from sa.norm import canon as _canon
+            ok = given is not None and bool(rets) and all(
+                r.value is not None and _canon(m, r.value) == given
+                for r in rets)
+            rep.ob("C20.validators", ok, loc=m.loc(), where=m.qualname,
+                   construct=f"@{decos[0][:40]} returns " + ", ".join(
+                       short(r.value, 30) for r in rets if r.value is not None),
+                   message="a validator checks, it does not rewrite")
+    rep.floor("C20.validators", n_val, 2, "validators")
 
 
 
